@@ -53,7 +53,7 @@ SPEC = {
     "id": "C10",
     "coq_props": ["Properties/C10.v", "Corr/C10.v"],
     "module": "MS.Properties.C10",
-    "theorems": ["C10_mono", "C10_mono_raw", "C10_1sec_blocks", "C10_models_equal", "C10_1sec_blocks_flocq", "C10_whole_seconds", "C10_enc_accuracy_partial", "C10_enc_position_partial", "C10_dec_fs_accuracy_partial", "C10_dec_total_partial", "C10_roundtrip_partial"],
+    "theorems": ["C10_roundtrip", "C10_dec_nowrap", "C10_mono", "C10_mono_raw", "C10_1sec_blocks", "C10_models_equal", "C10_1sec_blocks_flocq", "C10_whole_seconds", "C10_enc_accuracy_partial", "C10_enc_position_partial", "C10_dec_fs_accuracy_partial", "C10_dec_total_partial", "C10_roundtrip_partial"],
     "corr_require": "Require Import MS.Corr.C10.",
     "agrees": "C10.agrees",
     "in_domain": "C10.in_domain",
@@ -84,17 +84,15 @@ SPEC = {
         "the encoder is modelled as a function of the offset ts.Sub(baseTime); baseTime = IndexToTimeDepr is modelled and tied separately",
         "1-second exactness is proved on a stated finite domain (8 blocks of 10^5 offsets, unguarded since the F1 fix; thorough tier sweeps more "
         "blocks), not on all 10^9 offsets",
-        "the precision bound for all timeframes (C10_full) is stated but not proved in general (encoder accuracy and the decoder's "
-        "fractionalSeconds accuracy are proved); it is evaluated on every generated case",
+        "the precision bound for all timeframes and all offsets (C10_full) is PROVED (C10_roundtrip); it is also evaluated on every generated case",
         "F1 (GetTimeFromTicks rounding the seconds up) is FIXED in /repo (commit 551fdb4); the model follows the fixed code",
     ],
     "level": "proof",
-    "level_text": "Coq theorems: C10_mono (for EVERY on-disk timeframe and every pair of offsets in an interval the encoder preserves order and fits uint32; "
-                  "real-analysis proof on the Flocq binary64 model; C10_mono_raw for all offsets < 2^62), C10_models_equal (primitive-float mirror = Flocq "
-                  "model, proved), C10_1sec_blocks(_flocq) (1-second round trip exact on a stated finite domain of 8*10^5 offsets, no guard since the F1 "
-                  "fix, vm_compute reflection), C10_enc_accuracy_partial / C10_enc_position_partial / C10_dec_fs_accuracy_partial (analytic error bounds). "
-                  "Partial: the full precision bound C10_full is stated and checked per case, not proved. Bit-exact differential tie of both models. "
-                  "The former defect F1 is fixed in the repository (fixed: line in known_findings.txt); its witnesses are regression inputs.",
+    "level_text": "Coq theorems: C10_roundtrip = C10_full (for EVERY on-disk timeframe and EVERY offset: decoded time in the interval, <= original, "
+                  "within ceil(interval/2^32) ns, exact for 1Sec; analytic proof on the Flocq binary64 model of the post-fix code, no finite domain, no "
+                  "side condition), C10_mono (order preserved, ticks fit uint32), C10_dec_nowrap (the decoder's subseconds>=1e9 branch is dead), "
+                  "C10_models_equal (primitive-float mirror = Flocq model), plus the reflection theorems C10_1sec_blocks(_flocq), C10_whole_seconds and the "
+                  "accuracy lemmas. Bit-exact differential tie of both models on every run. The former defect F1 is fixed in the repository.",
     "level_note": "Axioms: Coq.Reals + classic (through Flocq), primitive float/int declarations. Trusted: Coq kernel/VM incl. primitive floats, gen "
                   "translator, harness. Modelled not verified: timeindex.go GetIntervalTicks32Bit/IndexToTimeDepr, rewritebuffer.go GetTimeFromTicks.",
     "design_ref": "§6 C10",
